@@ -224,8 +224,8 @@ def r4(ctx):
                 kinds[cal.struct[2]] = conds
     ok = any("ClientC2Data" in c for c in kinds.get("CallbackPacket", [])) and any("ServerC2Data" in c for c in kinds.get("TaskPacket", []))
     ctx.ob("R4", "AGREE", ir, "packet classes", ok, f"client data -> CallbackPacket, server data -> TaskPacket: {kinds}")
-    my = [y for y in ys if dotted(y.value) == "metadata"]
     py = [y for y in ys if isinstance(y.value, ast.Call)]
+    my = [y for y in ys if y not in py]
     ok = bool(my) and bool(py) and all(not cfg.reaches(cfg.node(fv.stmt_of(p)), cfg.node(fv.stmt_of(m))) for p in py for m in my)
     ctx.ob("R4", "DOM", ir, "metadata before packets", ok, "decrypted metadata is yielded before any packet of the same message" if ok else "packet yields can precede the metadata yield")
     tf = [c for c in fn_calls(ir.node) if dotted(c.func) == "self.get_transform_for_http"]
